@@ -200,25 +200,15 @@ let split_on_sep s =   (* split on " ## " *)
     else begin Buffer.add_char cur s.[i]; go acc cur (i + 1) end in
   go [] (Buffer.create 256) 0
 
-(* WF 4: the fuel of Reorder's topological sort is not shown sufficient for this case
-   (reorder_fuel_ok, hypothesis of C04_reorder_sort_fuel_suffices) *)
-let show_case te c =
-  let s = show_obs te (model_run c) in
-  if case_fuel_ok c then s
-  else begin
-    let n = String.length s in
-    if n >= 7 && String.sub s (n - 7) 5 = " ; WF" then String.sub s 0 (n - 7) ^ " ; WF 4" else s ^ " ; WF 4"
-  end
-
 let model_k kline =
   match split_ws kline with
-  | "K" :: rest -> let (te, c) = parse_chain rest in show_case te c
+  | "K" :: rest -> let (te, c) = parse_chain rest in show_obs te (model_run c)
   | _ -> "UNKNOWN-CASE"
 
 let model_line line =
   match split_ws line with
   | "E" :: rest -> show_edits_obs (edits_obs (parse_edits rest))
-  | "K" :: rest -> let (te, c) = parse_chain rest in show_case te c
+  | "K" :: rest -> let (te, c) = parse_chain rest in show_obs te (model_run c)
   | ("M" | "O" | "S" | "D") :: _ as toks -> model_conc toks
   | "PAIR" :: _ ->
     (match split_on_sep line with
